@@ -37,6 +37,9 @@ REF_ROUNDS = 600           # event-loop rounds a reference request may take
 
 CHAR_VALUE = bytes([0x5A, 0xA5, 0x01, 0x02])
 AVCTP_PID = 0x110E
+LE_ECHO_PSM = 0x0080
+ECHO_PSM = 0x1001
+ERTM_ECHO_PSM = 0x1003
 
 
 class Abort(BaseException):
@@ -216,7 +219,10 @@ class World:
         # READABLE/WRITEABLE permission bits: D11a, owned by C11)
         self.char = Characteristic('2A19', Characteristic.Properties.READ, Characteristic.READABLE,
                                    CharacteristicValue(read=lambda connection: CHAR_VALUE))
-        devs[1].add_service(Service('180F', [self.char]))
+        # a long value, for reads after a hostile MTU exchange
+        self.long_char = Characteristic('2A1A', Characteristic.Properties.READ, Characteristic.READABLE,
+                                        CharacteristicValue(read=lambda connection: bytes(range(100))))
+        devs[1].add_service(Service('180F', [self.char, self.long_char]))
         self.sdp_uuid = UUID('00000000-0000-0000-0000-0000000C0017')
         self.sdp_handle = 0x00010001
         devs[1].sdp_service_records = {
@@ -224,6 +230,18 @@ class World:
         self.server_dlcs = []
         self.rfcomm_server = rfcomm.Server(devs[1])
         self.rfcomm_channel = self.rfcomm_server.listen(self.server_dlcs.append)
+
+        # echo services: what the local side writes back is sized by values the peer negotiated
+        def echo_dlc(dlc):
+            dlc.sink = lambda data: dlc.write(b'echo:' + data)
+        self.rfcomm_echo_channel = self.rfcomm_server.listen(echo_dlc)
+
+        def echo_channel(channel):
+            channel.sink = lambda data: channel.write(data)
+        devs[1].create_l2cap_server(l2cap.LeCreditBasedChannelSpec(psm=LE_ECHO_PSM), echo_channel)
+        devs[1].create_l2cap_server(l2cap.ClassicChannelSpec(psm=ECHO_PSM), echo_channel)
+        devs[1].create_l2cap_server(
+            l2cap.ClassicChannelSpec(psm=ERTM_ECHO_PSM, mode=l2cap.TransmissionMode.ENHANCED_RETRANSMISSION), echo_channel)
         self.avdtp_servers = []
         listener = avdtp.Listener.for_device(devs[1])
 
@@ -288,6 +306,11 @@ class World:
         self.avctp_rx = []
         self.avctp_client.register_response_handler(AVCTP_PID, lambda label, payload: self.avctp_rx.append((label, payload)))
         await idle()
+        # a raw L2CAP channel to the RFCOMM PSM: device 1 holds an idle multiplexer for it,
+        # which the stateful hostile sequences drive with hand-made RFCOMM frames
+        self.rf_raw = await br[0].create_l2cap_channel(spec=l2cap.ClassicChannelSpec(psm=rfcomm.RFCOMM_PSM))
+        self.rf_raw.sink = lambda pdu: None
+        await idle()
         self.echo_id = 0x40
         self.with_hfp = with_hfp
         return self
@@ -310,6 +333,8 @@ class World:
             ch = self.avdtp_client.l2cap_channel
         elif proto == 'avctp':
             ch = self.avctp_client.l2cap_channel
+        elif proto == 'rfraw':
+            ch = self.rf_raw
         else:
             raise KeyError(proto)
         if dev == 0:
@@ -468,17 +493,30 @@ class World:
         elif kind == 'l2cap':                  # one L2CAP frame on a CID, in ACL fragments
             dev = op['dev']
             handle = self.handle(op['conn'], dev)
+            # 'last': the channel the injected device created last on this connection (the
+            # one a hostile connection request of an earlier op of the case made it create)
+            chans = self.devs[dev].l2cap_channel_manager.channels.get(handle, {})
+            last = max(chans) if chans else 0x0BAD
             if 'proto' in op:
                 cid = self.dyn_cid(op['proto'], dev)
+            elif op['cid'] == 'last':
+                cid = last
             else:
                 cid = op['cid']
-            frame = self.l2cap_frame(cid, bytes.fromhex(op['data']), op.get('l2len'))
+            data = op['data'].replace('{CID}', struct.pack('<H', last).hex())
+            frame = self.l2cap_frame(cid, bytes.fromhex(data), op.get('l2len'))
             frags = op.get('frags') or [[2, len(frame)]]
             pos = 0
             host = self.devs[dev].host
             for pb, n in frags:
                 host.on_packet(self.acl(handle, pb, op.get('bc', 0), frame[pos:pos + n]))
                 pos += n
+        elif kind == 'rfc':                    # a protocol-valid RFCOMM frame on the raw channel
+            dev = op['dev']
+            frame = self.rfc_frame(op)
+            handle = self.handle('br', dev)
+            cid = self.dyn_cid('rfraw', dev)
+            self.devs[dev].host.on_packet(self.acl(handle, 2, 0, self.l2cap_frame(cid, frame)))
         elif kind == 'at':                     # AT bytes in a well-formed RFCOMM UIH frame
             from bumble import rfcomm
             dev = op['dev']
@@ -499,8 +537,38 @@ class World:
             raise KeyError(kind)
 
 
+def _rfc_frame(self, op):
+    """Hand-made, well-formed RFCOMM frame of the hostile initiator (C/R = 1), FCS correct.
+    'd': 'mux' (DLCI 0) or 'echo' (the DLCI of the echo service)."""
+    dlci = 0 if op.get('d', 'mux') == 'mux' else (self.rfcomm_echo_channel << 1)
+    f = op['f']
+    if f == 'sabm':
+        return rfcomm_frame(0x2F, 1, dlci, 1, b'')
+    if f == 'disc':
+        return rfcomm_frame(0x43, 1, dlci, 1, b'')
+    if f == 'pn':
+        echo = self.rfcomm_echo_channel << 1
+        pn = bytes([op.get('pn_dlci', echo) & 0xFF, op.get('cl', 0xF0), op.get('prio', 7), op.get('ack', 0)]) + \
+            struct.pack('<H', op['mfs']) + bytes([op.get('retrans', 0), op['credits'] & 0xFF])
+        return rfcomm_frame(0xEF, 1, 0, 0, bytes([0x20 << 2 | 1 << 1 | 1, len(pn) << 1 | 1]) + pn)
+    if f == 'msc':
+        msc = bytes([dlci << 2 | 3, op.get('signals', 0x8D)])
+        return rfcomm_frame(0xEF, 1, 0, 0, bytes([0x38 << 2 | 1 << 1 | 1, len(msc) << 1 | 1]) + msc)
+    if f == 'uih':
+        data = bytes.fromhex(op.get('data', ''))
+        if op.get('credits') is not None:
+            return rfcomm_frame(0xEF, 1, dlci, 1, bytes([op['credits']]) + data)
+        return rfcomm_frame(0xEF, 1, dlci, 0, data)
+    raise KeyError(f)
+
+
+World.rfc_frame = _rfc_frame
+
+
 def op_len(op):
-    return len(op['data']) // 2
+    if op['k'] == 'rfc':
+        return 16 + len(op.get('data', '')) // 2
+    return len(op['data'].replace('{CID}', '0000')) // 2
 
 
 def op_entry(op):
@@ -511,10 +579,14 @@ def op_entry(op):
         return f'Host.on_packet[{_hci_kind(op)}]'
     if k == 'feed':
         return 'PacketParser.feed_data'
+    if k == 'rfc':
+        return f'rfcomm.Multiplexer.{side}'
     if k == 'at':
         return 'hfp.AgProtocol._read_at' if op['dev'] == 1 else 'hfp.HfProtocol._read_at'
     if 'proto' in op:
         return f"l2cap.{op['proto']}.{side}"
+    if op['cid'] == 'last':
+        return f"l2cap.new-channel.{op['conn']}.{side}"
     return f"l2cap.cid{op['cid']}.{op['conn']}.{side}"
 
 
@@ -526,7 +598,7 @@ def _hci_kind(op):
 # ----------------------------------------------------------------------------- seeds
 def world_layout(w):
     return {'dlci': w.client_dlc.dlci,
-            'live_cids': sorted({w.dyn_cid(p, d) for p in ('sdp', 'rfcomm', 'avdtp', 'avctp') for d in (0, 1)}),
+            'live_cids': sorted({w.dyn_cid(p, d) for p in ('sdp', 'rfcomm', 'avdtp', 'avctp', 'rfraw') for d in (0, 1)}),
             'live_handles': sorted({w.handle(c, d) for c in ('le', 'br') for d in (0, 1)})}
 
 
@@ -1759,19 +1831,60 @@ def corr_host(ctx, rng):
             ctx.disagree('Host.on_packet', {'ready': ready, 'conns': conns, 'cis': cis, 'packet': pkt.hex()}, repr(mm), repr(impl + [exc, table_ok]))
 
 
+def corr_process_tx(ctx, rng):
+    """rfcomm.DLC.process_tx on a real DLC (stub multiplexer recording the frames)."""
+    import types
+    from bumble import rfcomm
+    cases = []
+    for mtu in (-5, -1, 0, 1, 2, 5, 23, 100):
+        for buf in (0, 1, 2, 9, 60):
+            for credits in (0, 1, 3, 7):
+                for rx_credits in (0, 3, 7):
+                    cases.append((mtu, buf, credits, rx_credits))
+    for _ in range(ctx.n(100, 2000)):
+        cases.append((rng.range(-6, 40), rng.choice([0, 1, 5, 30, 120]), rng.below(9), rng.below(9)))
+    prepared = []
+    exprs = []
+    for mtu, buf, credits, rx_credits in cases:
+        sent = []
+        mux = types.SimpleNamespace(role=rfcomm.Multiplexer.Role.RESPONDER,
+                                    l2cap_channel=types.SimpleNamespace(peer_mtu=mtu + 5),
+                                    send_frame=lambda f, sent=sent: sent.append((len(f.information), bool(f.p_f))))
+        dlc = rfcomm.DLC(mux, 4, 32767, credits, 100, rx_credits)
+        dlc.tx_buffer = bytes(buf)
+        rxn = dlc.rx_credits_needed()
+        prepared.append((dlc, sent, rxn))
+        exprs.append(f'match process_tx true (process_tx_fuel {coq_z(credits)}) {coq_z(dlc.mtu)} {coq_z(buf)} {coq_z(credits)} {coq_z(rxn)} '
+                     f'with Some (st, fr) => Some (t_buf st, t_credits st, fr) | None => None end')
+    model = yield exprs
+    for (mtu, buf, credits, rx_credits), (dlc, sent, rxn), m in zip(cases, prepared, model):
+        ctx.count('corr.process_tx')
+        try:
+            guarded(buf + 8 * credits, dlc.process_tx)
+        except RealHang as h:
+            _hang_violation(ctx, 'rfcomm.DLC.process_tx', struct.pack('<hHBB', mtu, buf, credits, rx_credits), str(h))
+            continue
+        impl = [len(dlc.tx_buffer), dlc.tx_credits, [[n, p] for n, p in sent]]
+        mm = None if m is None else [m[1][0], m[1][1], [[n, p] for n, p in m[1][2]]]
+        ctx.case(('process_tx', mtu, buf, credits, rx_credits), buf > 0 and credits > 0, None)
+        if mm != impl:
+            ctx.disagree('rfcomm.DLC.process_tx', {'mtu': dlc.mtu, 'buffered': buf, 'tx_credits': credits, 'rx_credits': rx_credits}, repr(mm), repr(impl))
+
+
 def correspondence(ctx):
     """Each corr_* is a generator: it yields lists of Coq expressions and receives the
     evaluated models.  All expressions of a round are evaluated in one coq_eval call (the
     shards run in parallel)."""
     rng = ctx.rng.fork('correspondence')
-    gens = [f(ctx, rng) for f in (corr_at, corr_options, corr_att, corr_smp, corr_sig, corr_sdp, corr_host)]
+    gens = [f(ctx, rng) for f in (corr_at, corr_options, corr_att, corr_smp, corr_sig, corr_sdp, corr_host, corr_process_tx)]
     pending = []
     for g in gens:
         try:
             pending.append((g, next(g)))
         except StopIteration:
             pass
-    requires = ['Model.HostileAt', 'Model.HostileFields', 'Model.HostileSdp', 'Model.HostileHost', 'Gen.C17Tables']
+    requires = ['Model.HostileAt', 'Model.HostileFields', 'Model.HostileSdp', 'Model.HostileHost', 'Model.HostileRfcomm',
+                'Gen.C17Tables']
     while pending:
         exprs = [e for _, es in pending for e in es]
         values = ctx.coq_eval(requires, exprs, shard=300)
@@ -1852,8 +1965,8 @@ def directed_cases():
     # Requests for the new local CID (0x44) with zero-length / truncated / oversize options
     for name, opts in (('sig-config-zero-length-options', '01000100010001000100'), ('sig-config-truncated-option', '0102ff'),
                        ('sig-config-oversize-option', '01ff0001'), ('sig-config-odd-tail', '0100020005')):
-        body = '44000000' + opts
-        cfg = '040a' + struct.pack('<H', len(body) // 2).hex() + body
+        body = '{CID}0000' + opts
+        cfg = '040a' + struct.pack('<H', len(body.replace('{CID}', '0000')) // 2).hex() + body
         out.append({'name': name, 'target': 'cid1', 'src': 'directed', 'refs': ['conn', 'echo.br', 'sdp.fresh'],
                     'ops': [{'k': 'l2cap', 'conn': 'br', 'dev': 1, 'cid': 1, 'data': '0209040003007000'},
                             {'k': 'l2cap', 'conn': 'br', 'dev': 1, 'cid': 1, 'data': cfg}]})
@@ -1879,6 +1992,134 @@ def directed_cases():
     return out
 
 
+def _sig(code, ident, body):
+    n = len(body.replace('{CID}', '0000')) // 2
+    return bytes([code, ident]).hex() + struct.pack('<H', n).hex() + body
+
+
+def stateful_cases(rng, quick=True):
+    """Stateful hostile sequences made of protocol-VALID frames that carry hostile negotiated
+    values, each followed by traffic that makes the local side USE the negotiated value (echo
+    services write back), then the reference requests.  Every case gets a world of its own."""
+    out = []
+    le16 = lambda v: struct.pack('<H', v & 0xFFFF).hex()
+
+    def add(name, target, ops, refs, hfp=True):
+        out.append({'name': name, 'target': target, 'src': 'stateful', 'ops': ops, 'refs': refs, 'terminal': True, 'hfp': hfp})
+
+    # ---- RFCOMM: SABM(0), PN with hostile frame size / credits, SABM(dlci), MSC, data, DISC
+    sizes = [0, 1, 5, 23, 32767, 65535]
+    for mfs in sizes:
+        for credits in (0, 1, 7):
+            variants = [(None, 'plain'), (1, 'credit1')] if quick else [(None, 'plain'), (0, 'credit0'), (1, 'credit1'), (255, 'credit255')]
+            for cr, tag in variants:
+                ops = [{'k': 'rfc', 'dev': 1, 'f': 'sabm', 'd': 'mux'},
+                       {'k': 'rfc', 'dev': 1, 'f': 'pn', 'mfs': mfs, 'credits': credits,
+                        'prio': rng.choice([0, 7, 63, 255]), 'ack': rng.choice([0, 255]), 'retrans': rng.choice([0, 255]),
+                        'cl': rng.choice([0xF0, 0xF0, 0xE0, 0x00])},
+                       {'k': 'rfc', 'dev': 1, 'f': 'sabm', 'd': 'echo'},
+                       {'k': 'rfc', 'dev': 1, 'f': 'msc', 'd': 'echo', 'signals': rng.choice([0x8D, 0x8F, 0x01, 0xFF])},
+                       {'k': 'rfc', 'dev': 1, 'f': 'uih', 'd': 'echo', 'data': b'hello world, this is more than one frame'.hex(), 'credits': cr},
+                       {'k': 'rfc', 'dev': 1, 'f': 'uih', 'd': 'echo', 'data': b'x'.hex(), 'credits': 7 if cr is not None else None},
+                       {'k': 'rfc', 'dev': 1, 'f': 'uih', 'd': 'echo', 'data': '', 'credits': 33},
+                       {'k': 'rfc', 'dev': 1, 'f': 'disc', 'd': 'echo'}]
+                for flavour in ((True, False) if (mfs in (0, 23) and cr is None) else (True,)):
+                    add(f'rfcomm-pn-mfs{mfs}-credits{credits}-{tag}' + ('' if flavour else '-raw'), 'rfcomm-session', ops,
+                        ['conn', 'at', 'echo.br'], hfp=flavour)
+    # PN for the HFP / raw-sink channel itself and for an unserved channel, data before SABM
+    add('rfcomm-pn-unserved-channel', 'rfcomm-session',
+        [{'k': 'rfc', 'dev': 1, 'f': 'sabm', 'd': 'mux'}, {'k': 'rfc', 'dev': 1, 'f': 'pn', 'mfs': 0, 'credits': 7, 'pn_dlci': 60},
+         {'k': 'rfc', 'dev': 1, 'f': 'uih', 'd': 'echo', 'data': '6162'}], ['conn', 'at', 'echo.br'])
+    add('rfcomm-data-before-sabm', 'rfcomm-session',
+        [{'k': 'rfc', 'dev': 1, 'f': 'pn', 'mfs': 0, 'credits': 7}, {'k': 'rfc', 'dev': 1, 'f': 'uih', 'd': 'echo', 'data': '6162'},
+         {'k': 'rfc', 'dev': 1, 'f': 'sabm', 'd': 'echo'}, {'k': 'rfc', 'dev': 1, 'f': 'uih', 'd': 'echo', 'data': '6162'}], ['conn', 'at', 'echo.br'])
+
+    # ---- L2CAP LE credit-based: hostile mtu / mps / credits, then data both ways, then credits
+    vals = [0, 1, 22, 23, 65535]
+    combos = [(m, p, c) for m in vals for p in vals for c in (0, 1, 65535)]
+    if quick:
+        combos = [x for x in combos if x[0] in (0, 23, 65535) or x[1] in (0, 1)]
+        combos = [x for i, x in enumerate(combos) if i % 2 == 0 or x[1] == 0]
+    for mtu, mps, credits in combos:
+        ops = [{'k': 'l2cap', 'conn': 'le', 'dev': 1, 'cid': 5,
+                'data': _sig(0x14, 0x21, le16(LE_ECHO_PSM) + '5000' + le16(mtu) + le16(mps) + le16(credits))},
+               {'k': 'l2cap', 'conn': 'le', 'dev': 1, 'cid': 'last', 'data': '0500' + b'hello'.hex()},
+               {'k': 'l2cap', 'conn': 'le', 'dev': 1, 'cid': 5, 'data': _sig(0x16, 0x22, '5000' + le16(rng.choice([1, 7, 65535])))},
+               {'k': 'l2cap', 'conn': 'le', 'dev': 1, 'cid': 'last', 'data': '2800' + (b'0123456789' * 4).hex()},
+               {'k': 'l2cap', 'conn': 'le', 'dev': 1, 'cid': 5, 'data': _sig(0x16, 0x23, '5000ffff')}]
+        add(f'lecoc-mtu{mtu}-mps{mps}-credits{credits}', 'lecoc-session', ops, ['conn', 'att', 'echo.le'])
+    # enhanced credit-based (0x17) with the same hostile values, one or two channels
+    for mtu, mps, credits in [(0, 0, 1), (1, 1, 65535), (64, 0, 65535), (0, 64, 7), (22, 22, 1), (64, 64, 0), (65535, 65535, 65535)]:
+        for cids in ('5100', '51005200'):
+            ops = [{'k': 'l2cap', 'conn': 'le', 'dev': 1, 'cid': 5,
+                    'data': _sig(0x17, 0x24, le16(LE_ECHO_PSM) + le16(mtu) + le16(mps) + le16(credits) + cids)},
+                   {'k': 'l2cap', 'conn': 'le', 'dev': 1, 'cid': 'last', 'data': '0500' + b'hello'.hex()},
+                   {'k': 'l2cap', 'conn': 'le', 'dev': 1, 'cid': 5, 'data': _sig(0x16, 0x25, '5100ffff')},
+                   {'k': 'l2cap', 'conn': 'le', 'dev': 1, 'cid': 'last', 'data': '2800' + (b'0123456789' * 4).hex()},
+                   {'k': 'l2cap', 'conn': 'le', 'dev': 1, 'cid': 5,
+                    'data': _sig(0x19, 0x26, le16(rng.choice([0, 1, 23, 65535])) + le16(rng.choice([0, 1, 23, 65535])) + '{CID}')}]
+            add(f'ecoc-mtu{mtu}-mps{mps}-credits{credits}-{len(cids) // 4}ch', 'lecoc-session', ops, ['conn', 'att', 'echo.le'])
+
+    # ---- classic channel: Connection Request, Configure Request with hostile options, data
+    def classic(name, psm, options, frames):
+        ops = [{'k': 'l2cap', 'conn': 'br', 'dev': 1, 'cid': 1, 'data': _sig(0x02, 0x31, le16(psm) + '7000')},
+               {'k': 'l2cap', 'conn': 'br', 'dev': 1, 'cid': 1, 'data': _sig(0x04, 0x32, '{CID}0000' + options)},
+               {'k': 'l2cap', 'conn': 'br', 'dev': 1, 'cid': 1, 'data': _sig(0x05, 0x01, '{CID}00000000')},
+               {'k': 'l2cap', 'conn': 'br', 'dev': 1, 'cid': 1, 'data': _sig(0x05, 0x02, '{CID}00000000')}]
+        ops += [{'k': 'l2cap', 'conn': 'br', 'dev': 1, 'cid': 'last', 'data': f} for f in frames]
+        add(name, 'classic-session', ops, ['conn', 'echo.br', 'sdp.fresh'])
+    for mtu in (0, 1, 47, 48, 65535):
+        classic(f'classic-mtu{mtu}', ECHO_PSM, '0102' + le16(mtu), [(b'A' * 60).hex(), '', '00'])
+    classic('classic-mtu-option-empty', ECHO_PSM, '0100', ['6162'])
+    classic('classic-mtu-option-long', ECHO_PSM, '010400000000', ['6162'])
+    for win, mps, mtu in [(0, 0, 0), (0, 10, 48), (1, 0, 48), (63, 1, 1), (255, 65535, 65535), (1, 1, 0)]:
+        rfc = '0409' + bytes([3, win, rng.choice([0, 1, 255])]).hex() + le16(rng.choice([0, 2000])) + le16(rng.choice([0, 12000])) + le16(mps)
+        # I-frames (SAR unsegmented, TxSeq 0,1), an RR poll, a SAR start with SDU length
+        frames = ['0000' + (b'B' * 40).hex(), '0200' + (b'C' * 3).hex(), '1100', '0440' + '2800' + (b'D' * 10).hex()]
+        classic(f'ertm-win{win}-mps{mps}-mtu{mtu}', ERTM_ECHO_PSM, '0102' + le16(mtu) + rfc, frames)
+    classic('ertm-mode-mismatch', ECHO_PSM, '0409' + '03010100000000' + '0000', ['0000' + (b'B' * 4).hex()])
+    classic('basic-on-ertm-server', ERTM_ECHO_PSM, '0102' + le16(0), ['0000' + (b'B' * 4).hex()])
+
+    # ---- ATT: hostile Exchange MTU, then requests whose answers are sized by the MTU
+    for mtu in (0, 1, 2, 3, 22, 23):
+        reqs = ['02' + le16(mtu), '08' + '0100ffff' + '1a2a', '040100ffff', '10' + '0100ffff' + '0028',
+                '0c' + '1300' + '0000', '0e' + '0300' + '1000', '20' + '0300' + '1000']
+        add(f'att-server-mtu{mtu}', 'att-session',
+            [{'k': 'l2cap', 'conn': 'le', 'dev': 1, 'cid': 4, 'data': r} for r in reqs], ['conn', 'att', 'echo.le'])
+        add(f'att-client-mtu{mtu}', 'att-session',
+            [{'k': 'l2cap', 'conn': 'le', 'dev': 0, 'cid': 4, 'data': '03' + le16(mtu)},
+             {'k': 'l2cap', 'conn': 'le', 'dev': 0, 'cid': 4, 'data': '02' + le16(mtu)}], ['conn', 'att', 'echo.le'])
+
+    # ---- SDP: requests with hostile maximum counts, with continuation
+    pattern = '3503190100'                      # sequence { uuid16 L2CAP }
+    ranges = '35050a0000ffff'
+    for mx in (0, 1, 7, 65535):
+        reqs = [sdp_pdu(6, 1, bytes.fromhex(pattern + le16(mx)[2:] + le16(mx)[:2] + ranges + '00')),
+                sdp_pdu(6, 2, bytes.fromhex(pattern + le16(mx)[2:] + le16(mx)[:2] + ranges + '020100')),
+                sdp_pdu(6, 3, bytes.fromhex(pattern + le16(mx)[2:] + le16(mx)[:2] + ranges + '020100')),
+                sdp_pdu(4, 4, bytes.fromhex('00010001' + le16(mx)[2:] + le16(mx)[:2] + ranges + '00')),
+                sdp_pdu(4, 5, bytes.fromhex('00010001' + le16(mx)[2:] + le16(mx)[:2] + ranges + '020100')),
+                sdp_pdu(2, 6, bytes.fromhex(pattern + le16(mx)[2:] + le16(mx)[:2] + '00')),
+                sdp_pdu(2, 7, bytes.fromhex(pattern + le16(mx)[2:] + le16(mx)[:2] + '020100'))]
+        add(f'sdp-max{mx}', 'sdp-session',
+            [{'k': 'l2cap', 'conn': 'br', 'dev': 1, 'proto': 'sdp', 'data': r.hex()} for r in reqs], ['conn', 'sdp', 'echo.br'])
+
+    # ---- AVDTP: well-formed signalling commands with hostile SEIDs and capability lengths
+    def avdtp_cmd(label, sig, payload):
+        return bytes([label << 4, sig]).hex() + payload
+    for seid in (0, 1, 2, 63):
+        sb = bytes([seid << 2]).hex()
+        caps = [ '0100' + '0706' + '000000ff0235', '0100' + '07ff' + '0000', '01ff', '0700', '0100' * 20, 'ff00' ]
+        cmds = [avdtp_cmd(1, 2, sb), avdtp_cmd(2, 12, sb), avdtp_cmd(3, 4, sb)]
+        cmds += [avdtp_cmd(4 + i, 3, sb + '04' + c) for i, c in enumerate(caps[:3 if quick else 6])]
+        cmds += [avdtp_cmd(8, 5, sb + caps[0]), avdtp_cmd(9, 6, sb), avdtp_cmd(10, 7, sb + sb + 'fc'), avdtp_cmd(11, 9, sb),
+                 avdtp_cmd(12, 8, sb), avdtp_cmd(13, 10, sb), avdtp_cmd(14, 11, sb + 'aabb'), avdtp_cmd(15, 13, sb + 'ffff'),
+                 avdtp_cmd(0, 7, ''), avdtp_cmd(1, 3, sb)]
+        add(f'avdtp-seid{seid}', 'avdtp-session',
+            [{'k': 'l2cap', 'conn': 'br', 'dev': 1, 'proto': 'avdtp', 'data': c} for c in cmds], ['conn', 'avdtp', 'echo.br'])
+    return out
+
+
 def load_corpus():
     out = []
     if os.path.isdir(CORPUS_DIR):
@@ -1895,7 +2136,7 @@ def load_corpus():
 
 
 def is_terminal(case):
-    return 'pair' in case['refs']
+    return 'pair' in case['refs'] or case.get('terminal', False)
 
 
 class WorldBuildFailed(Exception):
@@ -2079,7 +2320,7 @@ def run(ctx):
     seeds = asyncio.run(record_seeds())
     ctx.extra['recorded_seed_pdus'] = {k: len(v) for k, v in sorted(seeds['chan'].items())}
     ctx.extra['recorded_hci_packets'] = [len(x) for x in seeds['hci']]
-    cases = load_corpus() + directed_cases()
+    cases = load_corpus() + directed_cases() + stateful_cases(ctx.rng.fork('stateful'), ctx.quick())
     gen = Gen(ctx.rng.fork('campaign'), seeds)
     for _ in range(ctx.n(2200, 30000)):
         cases.append(gen.case())
@@ -2128,6 +2369,23 @@ def replay(ctx, obj):
     if r.get('kind') == 'parser':
         b = bytes.fromhex(r['bytes'])
         print('parser      :', r['parser'], f'({len(b)} bytes)')
+        if r['parser'] == 'rfcomm.DLC.process_tx':
+            import types
+            from bumble import rfcomm
+            mtu, buf, credits, rx_credits = struct.unpack('<hHBB', b)
+            sent = []
+            mux = types.SimpleNamespace(role=rfcomm.Multiplexer.Role.RESPONDER,
+                                        l2cap_channel=types.SimpleNamespace(peer_mtu=mtu + 5),
+                                        send_frame=lambda f: sent.append(len(f.information)))
+            dlc = rfcomm.DLC(mux, 4, 32767, credits, 100, rx_credits)
+            dlc.tx_buffer = bytes(buf)
+            print(f'              mtu={dlc.mtu} buffered={buf} tx_credits={credits} rx_credits={rx_credits}')
+            try:
+                guarded(buf + 8 * credits, dlc.process_tx)
+                print(f'oracle      : holds ({len(sent)} frames sent, {dlc.tx_credits} credits left)')
+            except RealHang as h:
+                print(f'oracle      : {h} (step/depth budget exceeded after {len(sent)} frames)')
+            return 0
         fn = _parser(r['parser'])
         if fn is None:
             print('oracle      : (no stand-alone replay for this entry point; see the campaign replays)')
